@@ -2,6 +2,7 @@
 
 //@harness escape_double_quotes_roundtrip | bounded | all byte strings of length <= 4 | C08
 //@harness escape_body_text_roundtrip | bounded | all valid UTF-8 strings of <= 3 bytes | C08
+//@harness attr_name_validation_vs_spec | bounded | all ASCII names of length <= 3, UTF-8 document | C08,C15
 //@harness utf8_width_and_continuation | complete | all u8 | C13,C15
 //@append src/html/mod.rs
 #[cfg(kani)]
@@ -77,5 +78,29 @@ mod verif_kani_utf8 {
         let w = utf8_width(b);
         let spec = if b < 0x80 { 0 } else if b < 0xC0 { 1 } else if b < 0xE0 { 2 } else if b < 0xF0 { 3 } else if b < 0xF8 { 4 } else if b < 0xFC { 5 } else if b < 0xFE { 6 } else if b < 0xFF { 7 } else { 8 };
         assert!(w == spec);
+    }
+}
+
+//@append src/rewritable_units/tokens/attributes.rs
+#[cfg(kani)]
+mod verif_kani_attr_name {
+    use super::*;
+    // a name is accepted iff it is non-empty and contains none of the characters that end an attribute name in the tokenizer
+    // (whitespace, '/', '>', '='), at ANY position; an accepted name is stored byte for byte
+    #[kani::proof]
+    #[kani::unwind(6)]
+    fn attr_name_validation_vs_spec() {
+        let a: [u8; 3] = kani::any();
+        let n: usize = kani::any();
+        kani::assume(n <= 3);
+        let mut i = 0;
+        while i < 3 { kani::assume(a[i] < 128); i += 1; }
+        let Ok(s) = std::str::from_utf8(&a[..n]) else { return };
+        let mut forbidden = false;
+        let mut k = 0;
+        while k < n { if matches!(a[k], b' ' | b'\n' | b'\r' | b'\t' | b'\x0C' | b'/' | b'>' | b'=') { forbidden = true; } k += 1; }
+        let r = Attribute::name_from_string(String::from(s), encoding_rs::UTF_8);
+        assert!(r.is_err() == (n == 0 || forbidden));
+        if let Ok(b) = r { assert!(&*b == &a[..n]); }
     }
 }
